@@ -178,7 +178,9 @@ func engineRules(rng *rand.Rand, npat int) (rules string, groups []egroup, pats 
 		// an anchor next to a dot-star against node texts of several lines (`.` stops at a newline unless (?s) says otherwise)
 		`^.*foo`, `foo.*$`, `^.*foo.*$`, `^.*foo` + "`$", "^`foo.*$", `(?s)^.*foo`, `(?m)foo.*$`, `.*foo.*`,
 		// parentheses that are literals (bracket expression, \Q..\E, escaped) against texts in which `:` / `?` / `(` decide
-		`^[^()]*$`, `[()]`, `\Q(\E`, `\(x\)`, `[(?]`, `^"[^(:]*"$`} {
+		`^[^()]*$`, `[()]`, `\Q(\E`, `\(x\)`, `[(?]`, `^"[^(:]*"$`,
+		// two literals with a dot-star in between ("later on the same line") against texts of several lines
+		`foo.*bar`, `foo.*foo`, `bar.*foo`, `o.*o bar`} {
 		pats = append(pats, p)
 	}
 	for len(pats) < npat {
@@ -334,7 +336,7 @@ func engineTarget(groups []egroup, variant int) (string, []esite) {
 	for _, t := range texts {
 		textArgs = append(textArgs, strconv.Quote(t))
 	}
-	textArgs = append(textArgs, "`foo\nbar`", "`x\nfoo`", "`bar\nfoo`")
+	textArgs = append(textArgs, "`foo\nbar`", "`x\nfoo`", "`bar\nfoo`", "`foo\nfoo bar`", "`foo bar\nfoo`", "`bar foo\nbar`", "`foo\nbar\nfoo bar`", "`foo\nbar foo\nbar`")
 	var tb strings.Builder
 	tb.WriteString("package target\n\n")
 	tb.WriteString("var x int\n\n")
